@@ -4,9 +4,11 @@
 package fx
 
 import (
+	"context"
 	"errors"
 	"fmt"
 	"sync"
+	"time"
 )
 
 // ---- ownership (E-OWN) ----
@@ -258,3 +260,15 @@ type counter struct {
 func (c *counter) IncOk() { c.mu.Lock(); c.n++; c.mu.Unlock() }
 
 func (c counter) IncBad() { c.mu.Lock(); c.n++; c.mu.Unlock() }
+
+// ---- goroutine using a context cancelled by its starter ----
+
+func CtxOk(ctx context.Context, work func(context.Context)) {
+	go work(ctx)
+}
+
+func CtxBad(ctx context.Context, work func(context.Context)) {
+	ctx, cancel := context.WithTimeout(ctx, time.Second)
+	defer cancel()
+	go func() { work(ctx) }()
+}
